@@ -24,6 +24,10 @@ CLAIMED = {
    text='Seeded VCFs x histories of 1..4 process lifetimes that share only the on-disk cache directory; each lifetime draws (lazyLoad,use_cache) from all four combinations, possibly a different select_samples/ignore_conversions/phased than the previous one, and an access sequence with absent contigs/positions and revisits of evicted contigs. Every getAllelesAt/has_location answer must equal the eager cache-less resolver of that configuration and a VCF model on clear-cut sites. Sampled histories: evidence, not proof.',
    note='Trusts pysam VCF parsing and the clear-cut-site model; no I/O faults on the cache (outside the statement).',
    tech='deterministic simulation: seeded multi-lifetime histories over durable cache state, relational oracle against the eager mode plus a reference model'),
+ 'C01': dict(engine='demux', cat='exploration', design='5 C01',
+   text='Seeded FASTQ libraries (all barcode/truncation/N classes, phred 33..126, six header styles, known/unknown/absent sequencing index) are pushed through the real loader loop for one registered strategy at a time, with joint or one-file-per-cell output (HandleLimiter on a SimFS with an fd budget and anomalous clock), with/without a rejects handle and any maxReadPairs cut-off. The recorded I/O history (reads, writes per sink) and the produced files are checked for exactly-once, mate synchronisation, order, valid gzip/FASTQ, reject reason + original bases/qualities, and counters = records written; rejects-off runs are compared with the rejects-on run. Sampled workloads: evidence, not proof.',
+   note='Trusts the identity parser (unique cluster coordinates survive every header style). Narrow fault axis (fd budget, prune cadence, cut-off); wide axis is the workload. Paired-only strategies are only fed paired input.',
+   tech='deterministic simulation: seeded stream workloads with fd-exhaustion faults on a simulated file system, conservation/exactly-once oracle over the recorded I/O history'),
 }
 NA = {
  'C02': 'Pure function of (strategy layout, read pair): fixed slices of two strings; no stream state, schedule, clock, fault or history for a simulator to choose.',
